@@ -3,7 +3,8 @@
    (comments, VARCHAR lengths); *_spec : what the user most recently declared for the CURRENT incarnation of each
    table (what Snowflake reports). Full statement: they agree at every point of every DDL history.
    False outside dom (the *_refuted witnesses = known findings); proved on dom = histories of CREATE [OR REPLACE]
-   TABLE, DROP TABLE, DROP SCHEMA, ADD COLUMN and comments on existing tables - including any re-use of names. *)
+   TABLE, DROP TABLE, DROP SCHEMA, ADD / DROP / RENAME COLUMN, RENAME TO (after fix 6836b10) and comments on existing
+   tables - including any re-use of table and column names. Outside dom: CLONE / CTAS and comments on missing tables. *)
 From FS Require Import Sexp Meta MetaProofs.
 
 Theorem metadata_exact_partial : forall h, dom h = true -> forall k, length k = 3%nat ->
@@ -24,29 +25,20 @@ Theorem dropped_leave_nothing : forall h, dom h = true -> forall k c, length k =
 Proof. exact dropped_leave_nothing_l. Qed.
 Print Assumptions dropped_leave_nothing.
 
-Theorem rename_refuted : exists h k, describe_fake (run h) k <> describe_spec (run h) k.
-Proof. exact rename_refuted_l. Qed.
-Print Assumptions rename_refuted.
-
-Theorem rename_table_refuted : exists h k, comment_fake (run h) k <> comment_spec (run h) k.
-Proof. exact rename_table_refuted_l. Qed.
-Print Assumptions rename_table_refuted.
-
 Theorem clone_refuted : exists h k, describe_fake (run h) k <> describe_spec (run h) k.
 Proof. exact clone_refuted_l. Qed.
 Print Assumptions clone_refuted.
-
-Theorem readd_column_refuted : exists h k c, len_fake (run h) k c <> len_spec (run h) k c.
-Proof. exact readd_column_refuted_l. Qed.
-Print Assumptions readd_column_refuted.
 
 Theorem comment_on_missing_refuted : exists h k, comment_fake (run h) k <> comment_spec (run h) k.
 Proof. exact comment_on_missing_refuted_l. Qed.
 Print Assumptions comment_on_missing_refuted.
 
 Example meta_holds_somewhere : dom ex_h = true /\
-  comment_fake (run ex_h) (K "T1") = Some (lit "last") /\
-  describe_fake (run ex_h) (K "T1") = Some [(lit "B", inl 3); (lit "D", inl 255)] /\
+  comment_fake (run ex_h) (K "T2") = Some (lit "last") /\
+  describe_fake (run ex_h) (K "T2") = Some [(lit "E", inl 3); (lit "D", inr 1)] /\
+  len_fake (run ex_h) (K "T2") (lit "D") = None /\
+  comment_fake (run ex_h) (K "T1") = None /\
+  describe_fake (run ex_h) (K "T1") = Some [(lit "E", inl 16777216)] /\
   comment_fake (run ex_h) [lit "DB1"; lit "S2"; lit "T1"] = None /\
   describe_fake (run ex_h) [lit "DB1"; lit "S2"; lit "T1"] = Some [(lit "B", inl 16777216)].
 Proof. exact meta_nonvacuous_l. Qed.
